@@ -1794,3 +1794,587 @@ class C19(Check):
                 self.violation("to_function(args=%s) differs from set_value/set_initial/solve/sample (%s): %s" % (argspec, mode, msg),
                                {"desc": desc, "args": argspec, "argvals": argvals, "pre": pre, "mode": mode}, {"kind": "to_function", "mode": mode, "lq": kind})
                 return
+
+
+# ---------------------------------------------------------------------------------------------
+# C17: B-splines
+def bs_knots(xi, d):
+    return [xi[0]] * d + list(xi) + [xi[-1]] * d
+
+
+def bs_span(xi, d, x):
+    j = 0
+    for k in range(len(xi) - 1):
+        if xi[k] <= x:
+            j = k
+    return d + j
+
+
+def bs_basis(xi, d, x):
+    """exact Cox-de Boor (triangular scheme on the active span): values of the N+d basis functions at x"""
+    t = bs_knots(xi, d)
+    j = bs_span(xi, d, x)
+    n = len(xi) - 1 + d
+    Nv = [Fr(0)] * (len(t) - 1)
+    Nv[j] = Fr(1)
+    for e in range(1, d + 1):
+        new = [Fr(0)] * (len(t) - 1 - e)
+        for i in range(len(new)):
+            v = Fr(0)
+            if t[i + e] != t[i] and Nv[i] != 0:
+                v += (x - t[i]) / (t[i + e] - t[i]) * Nv[i]
+            if t[i + e + 1] != t[i + 1] and Nv[i + 1] != 0:
+                v += (t[i + e + 1] - x) / (t[i + e + 1] - t[i + 1]) * Nv[i + 1]
+            new[i] = v
+        Nv = new
+    return Nv[:n]
+
+
+def bs_eval(xi, d, c, x):
+    return sum((ci * bi for ci, bi in zip(c, bs_basis(xi, d, x))), Fr(0))
+
+
+def bs_piece_derivative(xi, d, c, x, m=1):
+    """m-th derivative at x of the spline, from the polynomial piece of the span containing x (exact):
+    interpolate the piece at d+1 points of its span and differentiate the interpolant m times"""
+    j = bs_span(xi, d, x) - d
+    a, b_ = xi[j], xi[j + 1]
+    ts = [a + (b_ - a) * Fr(i, d + 1) for i in range(d + 1)]
+    ys = [bs_eval(xi, d, c, t) for t in ts]
+    # polynomial coefficients through (ts, ys) by Newton divided differences, then differentiate m times
+    coef = newton_to_power(ts, ys)
+    for _ in range(m):
+        coef = [i * coef[i] for i in range(1, len(coef))] or [Fr(0)]
+    return sum((co * x ** i for i, co in enumerate(coef)), Fr(0))
+
+
+def newton_to_power(ts, ys):
+    n = len(ts)
+    dd = list(ys)
+    for k in range(1, n):
+        for i in range(n - 1, k - 1, -1):
+            dd[i] = (dd[i] - dd[i - 1]) / (ts[i] - ts[i - k])
+    # expand Newton form to power basis
+    poly = [Fr(0)]
+    basis = [Fr(1)]
+    for k in range(n):
+        poly = [(poly[i] if i < len(poly) else Fr(0)) + dd[k] * (basis[i] if i < len(basis) else Fr(0)) for i in range(max(len(poly), len(basis)))]
+        basis = [Fr(0)] + basis
+        for i in range(len(basis) - 1):
+            basis[i] -= ts[k] * basis[i + 1]
+    return poly
+
+
+def rand_grid(rng, N, uniform=False):
+    if uniform:
+        return [Fr(k, N) for k in range(N + 1)]
+    pts = sorted(rng.sample(range(1, 32), N - 1)) if N > 1 else []
+    return [Fr(0)] + [Fr(p, 32) for p in pts] + [Fr(1)]
+
+
+@register
+class C17(Check):
+    pid = "C17"
+    slices = ["micro-spline-functions", "signals-are-splines", "der-of-signals", "spline-method-chains", "spline-method-constraints",
+              "signals-under-sampling-methods", "spline-vs-shooting"]
+
+    def explanation(self):
+        return ("PARTIAL. model: Cox-de Boor recursion on the clamped control-grid knots, spline evaluation, derivative coefficients "
+                "c'_i = d (c_{i+1}-c_i)/(t_{i+d+1}-t_{i+1}) divided by the horizon for every derivative, Greville averages. theorems: see "
+                "Props/C17. correspondence: eval_on_knots (knots and sub-grid points), bspline_derivative, get_greville_points vs the Lean "
+                "model over Rat, vs an independent exact Cox-de Boor and vs scipy.interpolate.BSpline for orders 0..4, N 1..8, uniform and "
+                "non-uniform grids, refine 1..5; under SplineMethod every state, control, bspline variable and parameter sampled at any "
+                "refinement equals the Cox-de Boor evaluation of its 'gist' coefficients on the physical control grid, coefficient times are "
+                "the Greville points; der^m of a bspline signal: gist coefficients and refined samples equal the exact m-th derivative in "
+                "physical time (T != 1, t0 != 0); integrator-chain dynamics hold at every refined time at arbitrary decision vectors; "
+                "optimal values of SplineMethod and MultipleShooting agree on chain problems both represent")
+
+    def correspondence(self):
+        self.micro_slice()
+        self.spline_method_slice()
+        self.constraints_slice()
+        self.sampling_signal_slice()
+        self.equivalence_slice()
+
+    # -- micro_spline --------------------------------------------------------------------------
+    def micro_slice(self):
+        import casadi as ca
+        import numpy as np
+        from scipy.interpolate import BSpline
+        B.import_rockit()
+        from rockit.splines import micro_spline as ms
+        name = "micro-spline-functions"
+        n = 30 if self.tier == 'quick' else 400
+        for it in range(n):
+            N = self.rng.randint(1, 8)
+            d = self.rng.randint(0, 4)
+            r = self.rng.randint(1, 5)
+            xi = rand_grid(self.rng, N, uniform=self.rng.random() < 0.4)
+            xif = [float(v) for v in xi]
+            self.evaluations += 1
+            self.signatures.add("micro-%d-%d-%d-%s" % (N, d, r, xi))
+            self.count("order:%d" % d)
+            self.count("N:%d" % N)
+            self.count("refine:%d" % r)
+            with B.quiet():
+                k, Bm = ms.eval_on_knots(ca.DM(xif).T, d, subsamples=r - 1)
+                k = np.array(ca.DM(k)).flatten()
+                Bm = np.array(ca.DM(Bm))
+            nb = N + d
+            feats = {"kind": "micro", "fn": "eval_on_knots", "order": d}
+            if Bm.shape != (nb, len(k)) or len(k) != N * r + 1:
+                self.slice_ok[name] = False
+                self.violation("eval_on_knots(N=%d, d=%d, subsamples=%d) returns a %s matrix for %d points, expected %d x %d" % (N, d, r - 1, Bm.shape, len(k), nb, N * r + 1),
+                               {"xi": xi, "d": d, "r": r}, feats)
+                return
+            knots = np.array(bs_knots(xif, d))
+            self.driver.send(["bs " + Mo.rats(xi)])
+            for col in range(len(k)):
+                kk, ii = divmod(col, r)
+                x = xi[kk] + (xi[kk + 1] - xi[kk]) * Fr(ii, r) if kk < N else xi[N]
+                want = bs_basis(xi, d, x)
+                out = self.driver.run("bs basis %d %s" % (d, Mo.R(x)))
+                mod = [Mo.frac(v) for v in out[0].split()[1:]]
+                got = Bm[:, col]
+                if abs(k[col] - float(x)) > 1e-12:
+                    self.slice_ok[name] = False
+                    self.violation("eval_on_knots: sample point %d is %r, expected %r" % (col, k[col], float(x)), {"xi": xi, "d": d, "r": r}, feats)
+                    return
+                if mod != want:
+                    self.slice_ok[name] = False
+                    self.violation("Lean model and the independent Cox-de Boor disagree at x=%s" % x, {"xi": xi, "d": d, "x": x, "correspondence": "C17 micro"},
+                                   {"kind": "model"}, found_input=False)
+                    return
+                if any(abs(float(w) - g) > 1e-9 for w, g in zip(want, got)):
+                    self.slice_ok[name] = False
+                    self.violation("eval_on_knots(N=%d, d=%d): basis column at x=%s is %s, Cox-de Boor gives %s" % (N, d, float(x), list(got), [float(w) for w in want]),
+                                   {"xi": xi, "d": d, "r": r, "x": x}, feats)
+                    return
+                if d > 0 and kk < N:
+                    # scipy as a second, independent oracle
+                    sc = [float(BSpline(knots, np.eye(nb)[i], d, extrapolate=False)(float(x))) for i in range(nb)]
+                    if any(abs(a - float(w)) > 1e-9 for a, w in zip(np.nan_to_num(sc), want)):
+                        self.notes.append("scipy differs from exact Cox-de Boor at %s (not a finding about rockit)" % x)
+            # derivative coefficients
+            if d >= 1:
+                c = [Fr(self.rng.randint(-8, 8), 2) for _ in range(nb)]
+                with B.quiet():
+                    dc = np.array(ca.DM(ms.bspline_derivative(ca.DM([float(v) for v in c]).T, ca.DM(xif).T, d))).flatten()
+                out = self.driver.run("bs deriv %d 1 1 %s" % (d, Mo.rats(c)))
+                mod = [Mo.frac(v) for v in out[0].split()[1:]]
+                # oracle: the spline of degree d-1 with these coefficients is the derivative of the spline (checked pointwise, exact)
+                for _ in range(3):
+                    kk = self.rng.randrange(N)
+                    x = xi[kk] + (xi[kk + 1] - xi[kk]) * Fr(self.rng.randint(1, 7), 8)
+                    true = bs_piece_derivative(xi, d, c, x)
+                    viamodel = bs_eval(xi, d - 1, mod, x)
+                    if true != viamodel:
+                        self.slice_ok[name] = False
+                        self.violation("model derivative coefficients do not give the derivative of the spline at x=%s" % x, {"xi": xi, "d": d, "c": c, "correspondence": "C17 deriv"},
+                                       {"kind": "model"}, found_input=False)
+                        return
+                if len(dc) != len(mod) or any(abs(float(m_) - g) > 1e-9 * max(1, abs(g)) for m_, g in zip(mod, dc)):
+                    self.slice_ok[name] = False
+                    self.violation("bspline_derivative(N=%d, d=%d) = %s but the derivative spline has coefficients %s" % (N, d, list(dc), [float(m_) for m_ in mod]),
+                                   {"xi": xi, "d": d, "c": c}, {"kind": "micro", "fn": "bspline_derivative", "order": d})
+                    return
+            # Greville points
+            with B.quiet():
+                gv = np.array(ca.DM(ms.get_greville_points(ca.DM(xif).T, d))).flatten()
+            out = self.driver.run("bs greville %d" % d)
+            mod = [Mo.frac(v) for v in out[0].split()[1:]]
+            t = bs_knots(xi, d)
+            want = [sum(t[i + 1:i + d + 1], Fr(0)) / d for i in range(nb)] if d > 0 else [(xi[i] + xi[i + 1]) / 2 for i in range(N)]
+            if mod != want:
+                self.slice_ok[name] = False
+                self.violation("Lean model Greville points differ from the knot averages", {"xi": xi, "d": d, "correspondence": "C17 greville"}, {"kind": "model"}, found_input=False)
+                return
+            if len(gv) != len(want) or any(abs(float(w) - g) > 1e-12 for w, g in zip(want, gv)):
+                self.slice_ok[name] = False
+                self.violation("get_greville_points(N=%d, d=%d) = %s, knot averages are %s" % (N, d, list(gv), [float(w) for w in want]), {"xi": xi, "d": d},
+                               {"kind": "micro", "fn": "get_greville_points", "order": d})
+                return
+
+    # -- SplineMethod --------------------------------------------------------------------------
+    def make_spline_ocp(self):
+        """integrator-chain system (mixed chain lengths, vector states), bspline variable and parameter with their derivatives"""
+        import casadi as ca
+        rockit = B.import_rockit()
+        rng = self.rng
+        t0 = Fr(rng.randint(-2, 3), 2)
+        T = Fr(rng.choice([1, 2, 3, 5, 6]), 2)
+        N = rng.randint(1, 5)
+        gk = rng.choice(['uniform', 'geometric'])
+        info = {"t0": t0, "T": T, "N": N, "grid": gk, "chains": [], "signals": []}
+        with B.quiet():
+            ocp = rockit.Ocp(t0=float(t0), T=float(T))
+            obj = 0
+            chains = []
+            for ci in range(rng.randint(1, 2)):
+                L = rng.randint(1, 3)
+                n = rng.choice([1, 1, 2])
+                members = [ocp.state(n) for _ in range(L)]
+                u = ocp.control(n)
+                for a, b_ in zip(members, members[1:] + [u]):
+                    ocp.set_der(a, b_)
+                chains.append((members, u, n))
+                info["chains"].append({"length": L, "dim": n})
+                obj = obj + ocp.at_tf(ca.sumsqr(members[0])) + ocp.sum(ca.sumsqr(u))
+            sigs = []
+            for si in range(rng.randint(1, 2)):
+                d = rng.randint(1, 3)
+                n = rng.choice([1, 2])
+                kind = rng.choice(['variable', 'parameter'])
+                if kind == 'variable':
+                    s = ocp.variable(n, grid='bspline', order=d)
+                    obj = obj + ocp.sum(ca.sumsqr(s - 1), include_last=True)
+                    val = None
+                else:
+                    s = ocp.parameter(n, grid='bspline', order=d)
+                    val = [[Fr(rng.randint(-8, 8), 4) for _ in range(N + d)] for _ in range(n)]
+                    ocp.set_value(s, ca.DM([[float(v) for v in row] for row in val]))
+                    obj = obj + ocp.sum(ca.sumsqr(s), include_last=True)     # keeps the parameter active in the NLP (opti.p lists active ones only)
+                ders = [s]
+                for m in range(d):
+                    ders.append(ocp.der(ders[-1]))
+                sigs.append((s, d, n, kind, ders, val))
+                info["signals"].append({"order": d, "dim": n, "kind": kind})
+            ocp.add_objective(obj)
+            ocp.subject_to(ocp.at_t0(chains[0][0][0]) == 1)
+            grid = rockit.UniformGrid() if gk == 'uniform' else rockit.GeometricGrid(rng.choice([2, 3]))
+            ocp.method(rockit.SplineMethod(N=N, grid=grid))
+            ocp.solver('ipopt', {'ipopt.print_level': 0, 'print_time': False, 'ipopt.max_iter': 0, 'ipopt.sb': 'yes'})
+            ocp._transcribed
+        return ocp, chains, sigs, info
+
+    def spline_method_slice(self):
+        import casadi as ca
+        n = 10 if self.tier == 'quick' else 120
+        for it in range(n):
+            try:
+                ocp, chains, sigs, info = self.make_spline_ocp()
+            except Exception as ex:
+                self.slice_ok["signals-are-splines"] = False
+                self.violation("SplineMethod raised on an integrator-chain problem: %s: %s" % (type(ex).__name__, str(ex)[:300].replace("\n", " ")),
+                               {"note": "see seed/iteration", "iteration": it}, {"kind": "exception"})
+                return
+            N, T, t0 = info["N"], info["T"], info["t0"]
+            r = self.rng.randint(1, 4)
+            opti = ocp._method.opti
+            items = []   # (label, expr, degree, dim, derivative order m of which base index)
+            for ci, (members, u, nd) in enumerate(chains):
+                L = len(members)
+                for mi, s in enumerate(members):
+                    items.append(("chain%d.x%d" % (ci, mi), s, L - mi, nd))
+                items.append(("chain%d.u" % ci, u, 0, nd))
+            for si, (s, d, nd, kind, ders, val) in enumerate(sigs):
+                for m, e in enumerate(ders):
+                    items.append(("sig%d.der%d" % (si, m), e, d - m, nd))
+            outs = []
+            with B.quiet():
+                tc = ocp.sample(items[0][1], grid='control')[0]
+                outs.append(ca.vec(ca.MX(tc)))
+                for label, e, deg, nd in items:
+                    tg, cg = ocp.sample(e, grid='gist')
+                    tr, vr = ocp.sample(e, grid='control', refine=r)
+                    outs += [ca.vec(ca.MX(tg)), ca.vec(ca.MX(cg)), ca.vec(ca.MX(tr)), ca.vec(ca.MX(vr))]
+                try:
+                    W = Walker(ca.Function('s', [opti.x, opti.p], outs))
+                except RuntimeError as ex:
+                    if 'are free' in str(ex):
+                        self.count("skipped-inactive-variable")
+                        self.notes.append(str(ex)[-200:])
+                        continue
+                    raise
+            xv = [rnd(self.rng) for _ in range(opti.x.numel())]
+            with B.quiet():
+                pcur = ca.DM(opti.debug.value(opti.p, opti.initial())).full().flatten().tolist() if opti.p.numel() else []
+            pv = [Fr(v) for v in pcur]
+            res = W([xv, pv])
+            tcv = [v[0] for v in res[0]]
+            self.evaluations += 1
+            self.signatures.add(repr(info))
+            self.count("spline-N:%d" % N)
+            self.count("spline-grid:%s" % info["grid"])
+            vals = {}
+            for idx, (label, e, deg, nd) in enumerate(items):
+                tg = [v[0] for v in res[1 + 4 * idx]]
+                cg = [v[0] for v in res[2 + 4 * idx]]
+                tr = [v[0] for v in res[3 + 4 * idx]]
+                vr = [v for v in res[4 + 4 * idx]]
+                ncoef = N + deg
+                feats = {"kind": "spline-signal", "what": label.split(".")[1], "degree": deg}
+                if len(cg) != nd * ncoef:
+                    self.slice_ok["signals-are-splines"] = False
+                    self.violation("%s: %d gist coefficients for dimension %d, degree %d, N=%d (expected %d)" % (label, len(cg), nd, deg, N, nd * ncoef), {"info": info}, feats)
+                    return
+                # gist times are the Greville points in physical time
+                t = bs_knots(tcv, deg)
+                grev = [sum(t[i + 1:i + deg + 1], Fr(0)) / deg for i in range(ncoef)] if deg > 0 else [(tcv[i] + tcv[i + 1]) / 2 for i in range(N)]
+                if len(tg) == len(grev) and any(not close(a, b_, 1.0 + abs(fl(a))) for a, b_ in zip(grev, tg)):
+                    self.slice_ok["signals-are-splines"] = False
+                    self.violation("%s: 'gist' times %s are not the Greville points %s" % (label, [float(v) for v in tg], [float(v) for v in grev]), {"info": info}, feats)
+                    return
+                # refined samples = Cox-de Boor of the gist coefficients
+                want_t = []
+                for k in range(N):
+                    for j in range(r):
+                        want_t.append(tcv[k] + (tcv[k + 1] - tcv[k]) * Fr(j, r))
+                want_t.append(tcv[N])
+                if len(tr) != len(want_t):
+                    self.slice_ok["signals-are-splines"] = False
+                    self.violation("%s: sample(grid='control', refine=%d) has %d points, expected %d" % (label, r, len(tr), len(want_t)), {"info": info}, feats)
+                    return
+                comp = [[cg[c_ * nd + a] for c_ in range(ncoef)] for a in range(nd)]   # column-major vec of an nd x ncoef matrix
+                vals[label] = (deg, nd, comp, want_t)
+                for pi, x in enumerate(want_t):
+                    for a in range(nd):
+                        got, mg = vr[pi * nd + a]
+                        want = bs_eval(tcv, deg, comp[a], x)
+                        if not close(want, got, max(mg, 1.0)):
+                            self.slice_ok["signals-are-splines"] = False
+                            self.violation("%s component %d: sample at t=%s (refine=%d) is %s, the degree-%d spline of its 'gist' coefficients gives %s"
+                                           % (label, a, float(x), r, float(got), deg, float(want)), {"info": info, "x": xv}, feats)
+                            return
+                self.count("signal-checked:%s" % label.split(".")[1][:3])
+            # derivatives of bspline signals: coefficients and values are the exact derivative in physical time
+            for si, (s, d, nd, kind, ders, val) in enumerate(sigs):
+                deg0, _, comp0, times = vals["sig%d.der0" % si]
+                for m in range(1, d + 1):
+                    degm, _, compm, _ = vals["sig%d.der%d" % (si, m)]
+                    feats = {"kind": "signal-derivative", "m": m, "T_is_one": T == 1}
+                    for a in range(nd):
+                        # model: signalDerIter on the NORMALISED grid with the horizon T
+                        xin = [(tk - tcv[0]) / (tcv[N] - tcv[0]) for tk in tcv]
+                        self.driver.send(["bs " + Mo.rats(xin)])
+                        out = self.driver.run("bs deriv %d %d %s %s" % (d, m, Mo.R(T), Mo.rats(comp0[a])))
+                        mod = [Mo.frac(v) for v in out[0].split()[1:]]
+                        for kk in range(N):
+                            x = tcv[kk] + (tcv[kk + 1] - tcv[kk]) * Fr(self.rng.randint(1, 7), 8)
+                            true = bs_piece_derivative(tcv, d, comp0[a], x, m)
+                            got = bs_eval(tcv, degm, compm[a], x)
+                            mag = 1.0 + abs(fl(true)) + sum(abs(fl(v)) for v in comp0[a]) / max(fl(tcv[kk + 1] - tcv[kk]), 1e-9) ** m
+                            if not close(true, got, mag):
+                                self.slice_ok["der-of-signals"] = False
+                                self.violation("der^%d of a bspline %s of order %d (T=%s): its spline gives %s at t=%s, the %d-th time derivative of the signal is %s"
+                                               % (m, kind, d, T, float(got), float(x), m, float(true)), {"info": info, "signal": si, "m": m}, feats)
+                                return
+                            viamodel = bs_eval(tcv, degm, mod, x) if len(mod) == N + degm else None
+                            if viamodel is None or not close(true, viamodel, mag):
+                                self.slice_ok["der-of-signals"] = False
+                                self.violation("model derivative coefficients (signalDerIter) do not give the %d-th derivative" % m,
+                                               {"info": info, "correspondence": "C17 der"}, {"kind": "model"}, found_input=False)
+                                return
+                    self.count("der-order:%d" % m)
+            # chain dynamics hold identically in time: the derivative of each member's spline is the next member's spline
+            for ci, (members, u, nd) in enumerate(chains):
+                labels = ["chain%d.x%d" % (ci, mi) for mi in range(len(members))] + ["chain%d.u" % ci]
+                for la, lb in zip(labels, labels[1:]):
+                    dega, _, compa, _ = vals[la]
+                    degb, _, compb, _ = vals[lb]
+                    for a in range(nd):
+                        for kk in range(N):
+                            x = tcv[kk] + (tcv[kk + 1] - tcv[kk]) * Fr(self.rng.randint(1, 7), 8)
+                            true = bs_piece_derivative(tcv, dega, compa[a], x, 1)
+                            got = bs_eval(tcv, degb, compb[a], x)
+                            mag = 1.0 + abs(fl(true)) + sum(abs(fl(v)) for v in compa[a]) / max(fl(tcv[kk + 1] - tcv[kk]), 1e-9)
+                            if not close(true, got, mag):
+                                self.slice_ok["spline-method-chains"] = False
+                                self.violation("chain dynamics do not hold between grid points: d/dt %s = %s at t=%s but %s = %s" % (la, float(true), float(x), lb, float(got)),
+                                               {"info": info, "x": xv}, {"kind": "chain-dynamics"})
+                                return
+                self.count("chains-checked")
+
+    def constraints_slice(self):
+        """path constraints under SplineMethod: control-grid constraints are imposed at every refined grid point (exactly the sampled
+        values), grid='inf' constraints bound the B-spline coefficients (which, by convex_upper/lower, bounds the signal at all times)"""
+        import casadi as ca
+        rockit = B.import_rockit()
+        name = "spline-method-constraints"
+        n = 6 if self.tier == 'quick' else 60
+        for it in range(n):
+            rng = self.rng
+            L = rng.randint(1, 3)
+            N = rng.randint(1, 4)
+            r = rng.randint(1, 3)
+            T = rng.choice([1.0, 2.0, 3.0])
+            gk = rng.choice(['uniform', 'geometric'])
+            mode = rng.choice(['control', 'inf'])
+            target = rng.randrange(L + 1)      # which chain member (L = the control)
+            lbv, ubv = -rng.randint(1, 4) / 2.0, rng.randint(1, 4) / 2.0
+            optis = []
+            keep = None
+            for with_con in (True, False):
+                with B.quiet():
+                    ocp = rockit.Ocp(t0=0.5, T=T)
+                    xs = [ocp.state() for _ in range(L)]
+                    u = ocp.control()
+                    for a, b_ in zip(xs, xs[1:] + [u]):
+                        ocp.set_der(a, b_)
+                    ocp.add_objective(ocp.sum(u ** 2 + sum(x ** 2 for x in xs), include_last=True) if False else ocp.sum(u ** 2) + ocp.at_tf(sum(x ** 2 for x in xs)))
+                    ocp.subject_to(ocp.at_t0(xs[0]) == 1)
+                    e = (xs + [u])[target]
+                    if with_con:
+                        if mode == 'control':
+                            ocp.subject_to(lbv <= (e <= ubv), refine=r)
+                        else:
+                            ocp.subject_to(lbv <= (e <= ubv), grid='inf')
+                    ocp.method(rockit.SplineMethod(N=N, grid=rockit.UniformGrid() if gk == 'uniform' else rockit.GeometricGrid(2)))
+                    ocp.solver('ipopt', {'ipopt.print_level': 0, 'print_time': False, 'ipopt.max_iter': 0, 'ipopt.sb': 'yes'})
+                    ocp._transcribed
+                    opti = ocp._method.opti
+                    optis.append(opti)
+                    if with_con:
+                        keep = (ocp, e)
+            oA, oB = optis
+            self.evaluations += 1
+            self.count("spline-constraint:%s" % mode)
+            self.signatures.add("splcon-%d-%d-%d-%s-%s-%d" % (L, N, r, gk, mode, target))
+            feats = {"kind": "spline-constraint", "mode": mode}
+            payload = {"L": L, "N": N, "refine": r, "T": T, "grid": gk, "mode": mode, "target": target, "lb": lbv, "ub": ubv}
+            if oA.x.numel() != oB.x.numel():
+                continue
+            ocp, e = keep
+            with B.quiet():
+                WA = Walker(ca.Function('a', [oA.x, oA.p], [oA.g, oA.lbg, oA.ubg]))
+                WB = Walker(ca.Function('b', [oB.x, oB.p], [oB.g, oB.lbg, oB.ubg]))
+                if mode == 'control':
+                    _, vs = ocp.sample(e, grid='control', refine=r)
+                else:
+                    _, vs = ocp.sample(e, grid='gist')
+                _, fine = ocp.sample(e, grid='control', refine=7)
+                WS = Walker(ca.Function('s', [oA.x, oA.p], [ca.vec(ca.MX(vs)), ca.vec(ca.MX(fine))]))
+            xv = [rnd(rng) for _ in range(oA.x.numel())]
+            pv = [rnd(rng, True) for _ in range(oA.p.numel())]
+            gA, lA, uA = WA([xv, pv])
+            gB, lB, uB = WB([xv, pv])
+            rowsB = list(zip([v[0] for v in gB], [v[0] for v in lB], [v[0] for v in uB]))
+            extra = []
+            ptr = 0
+            for row in zip(gA, lA, uA):
+                key = (row[0][0], row[1][0], row[2][0])
+                if ptr < len(rowsB) and key == rowsB[ptr]:
+                    ptr += 1
+                else:
+                    extra.append(row)
+            if ptr != len(rowsB):
+                self.count("spline-constraint-skipped(rows-not-a-subsequence)")
+                continue
+            self.count("spline-constraint-compared:%s" % mode)
+            atoms = sorted(fl(a[0]) for a in B.atoms_of_impl([r_[0] for r_ in extra], [r_[1] for r_ in extra], [r_[2] for r_ in extra]))
+            vals, finev = WS([xv, pv])
+            want = sorted([fl(v[0]) - lbv for v in vals] + [ubv - fl(v[0]) for v in vals])
+            what = "at every refined control-grid point (refine=%d)" % r if mode == 'control' else "on every B-spline coefficient"
+            if len(atoms) != len(want) or any(abs(a - w) > 1e-9 * max(1.0, abs(a), abs(w)) for a, w in zip(atoms, want)):
+                self.slice_ok[name] = False
+                self.violation("SplineMethod: the rows of a %s constraint are not the constraint %s: %d row atoms vs %d expected, e.g. %s vs %s"
+                               % (mode, what, len(atoms), len(want), atoms[:4], want[:4]), dict(payload, x=xv), feats)
+                return
+            # sufficiency for all times: no refined sample is closer to a bound than the closest row
+            if atoms:
+                worst = min(min(fl(v[0]) - lbv, ubv - fl(v[0])) for v in finev)
+                if worst < atoms[0] - 1e-9 * (1.0 + abs(atoms[0])) and mode == 'inf':
+                    self.slice_ok[name] = False
+                    self.violation("SplineMethod grid='inf': the smallest row slack is %s but the signal comes within %s of a bound between grid points" % (atoms[0], worst),
+                                   dict(payload, x=xv), feats)
+                    return
+
+    def sampling_signal_slice(self):
+        """a bspline variable under MultipleShooting / DirectCollocation: its refined samples are a degree-d spline on the control grid:
+        the sample values are linear in the decision vector, and the Jacobian columns of the N+d coefficient variables are the Cox-de Boor
+        basis functions at the sample times"""
+        import casadi as ca
+        import numpy as np
+        rockit = B.import_rockit()
+        name = "signals-under-sampling-methods"
+        n = 6 if self.tier == 'quick' else 60
+        for it in range(n):
+            rng = self.rng
+            d = rng.randint(0, 3)
+            N = rng.randint(1, 4)
+            M = rng.randint(1, 2)
+            r = rng.randint(1, 3)
+            meth = rng.choice(['ms', 'dc'])
+            gk = rng.choice(['uniform', 'geometric'])
+            with B.quiet():
+                ocp = rockit.Ocp(t0=1.0, T=rng.choice([1.0, 2.0, 4.0]))
+                x = ocp.state()
+                w = ocp.variable(grid='bspline', order=d)
+                ocp.set_der(x, -x + w)
+                ocp.add_objective(ocp.integral(x ** 2 + w ** 2))
+                ocp.subject_to(ocp.at_t0(x) == 1)
+                grid = rockit.UniformGrid() if gk == 'uniform' else rockit.GeometricGrid(2)
+                ocp.method(rockit.MultipleShooting(N=N, M=M, intg='rk', grid=grid) if meth == 'ms' else rockit.DirectCollocation(N=N, M=M, degree=2, grid=grid))
+                ocp.solver('ipopt', {'ipopt.print_level': 0, 'print_time': False, 'ipopt.max_iter': 0, 'ipopt.sb': 'yes'})
+                ocp._transcribed
+                opti = ocp._method.opti
+                ts, vs = ocp.sample(w, grid='integrator', refine=r)
+                tc, _ = ocp.sample(w, grid='control')
+                J = ca.Function('J', [opti.x, opti.p], [ca.jacobian(ca.vec(ca.MX(vs)), opti.x), ca.vec(ca.MX(ts)), ca.vec(ca.MX(tc)), ca.vec(ca.MX(vs))])
+                x0 = [rng.randint(-4, 4) / 2.0 for _ in range(opti.x.numel())]
+                p0 = [1.0] * opti.p.numel()
+                Jv, tv, tcv, vv = J(x0, p0)
+            Jv = np.array(ca.DM(Jv))
+            tv = np.array(tv).flatten()
+            tcv = [Fr(float(v)) for v in np.array(tcv).flatten()]
+            self.evaluations += 1
+            self.count("sampling-signal:%s" % meth)
+            self.signatures.add("sampsig-%d-%d-%d-%d-%s-%s" % (d, N, M, r, meth, gk))
+            feats = {"kind": "sampling-signal", "method": meth, "order": d}
+            payload = {"order": d, "N": N, "M": M, "refine": r, "method": meth, "grid": gk}
+            cols = [j for j in range(Jv.shape[1]) if np.any(np.abs(Jv[:, j]) > 1e-12)]
+            if len(cols) != N + d:
+                self.slice_ok[name] = False
+                self.violation("a bspline variable of order %d on N=%d intervals depends on %d decision variables (expected N+d = %d coefficients)" % (d, N, len(cols), N + d),
+                               payload, feats)
+                return
+            cols.sort(key=lambda j: (int(np.argmax(np.abs(Jv[:, j]) > 1e-12)), -int(np.argmax(np.abs(Jv[::-1, j]) > 1e-12))))
+            for pi, t in enumerate(tv):
+                want = bs_basis(tcv, d, Fr(float(t)))
+                for ci, j in enumerate(cols):
+                    if abs(Jv[pi, j] - float(want[ci])) > 1e-9:
+                        self.slice_ok[name] = False
+                        self.violation("bspline variable (order %d, %s): d sample(t=%s)/d coefficient %d = %r, Cox-de Boor basis value is %r" % (d, meth, t, ci, Jv[pi, j], float(want[ci])),
+                                       payload, feats)
+                        return
+
+    def equivalence_slice(self):
+        """numeric support (a test): same optimal value under SplineMethod and MultipleShooting for a chain problem both represent
+        exactly (piecewise-constant control, objective and constraints on the control grid)"""
+        import casadi as ca
+        rockit = B.import_rockit()
+        n = 2 if self.tier == 'quick' else 15
+        for it in range(n):
+            L = self.rng.randint(1, 3)
+            N = self.rng.randint(2, 5)
+            T = self.rng.choice([1.0, 2.0, 3.0])
+            x0 = [self.rng.randint(-4, 4) / 2.0 for _ in range(L)]
+            w = self.rng.choice([0.5, 1.0, 2.0])
+            vals = []
+            for meth in ('spline', 'ms'):
+                with B.quiet():
+                    ocp = rockit.Ocp(T=T)
+                    xs = [ocp.state() for _ in range(L)]
+                    u = ocp.control()
+                    for a, b_ in zip(xs, xs[1:] + [u]):
+                        ocp.set_der(a, b_)
+                    ocp.add_objective(ocp.sum(w * u ** 2 + xs[0] ** 2, include_last=False) + 10 * ocp.at_tf(ca.sumsqr(ca.vertcat(*xs))))
+                    for xx, v in zip(xs, x0):
+                        ocp.subject_to(ocp.at_t0(xx) == v)
+                    ocp.subject_to(-5 <= (u <= 5), include_last=False)
+                    ocp.method(rockit.SplineMethod(N=N) if meth == 'spline' else rockit.MultipleShooting(N=N, M=1, intg='rk'))
+                    ocp.solver('ipopt', {'ipopt.print_level': 0, 'print_time': False, 'ipopt.tol': 1e-10, 'ipopt.sb': 'yes'})
+                    try:
+                        sol = ocp.solve()
+                        vals.append(float(sol.value(ocp.objective)))
+                    except Exception as ex:
+                        vals.append(None)
+            self.evaluations += 1
+            self.count("equivalence-runs")
+            if None in vals:
+                continue
+            if abs(vals[0] - vals[1]) > 1e-6 * max(1.0, abs(vals[1])):
+                self.slice_ok["spline-vs-shooting"] = False
+                self.violation("optimal value under SplineMethod %r differs from MultipleShooting %r on an integrator chain of length %d (N=%d, T=%s)" % (vals[0], vals[1], L, N, T),
+                               {"L": L, "N": N, "T": T, "x0": x0, "w": w}, {"kind": "equivalence"})
+                return
